@@ -18,6 +18,8 @@ LEVEL = "exploration"
 
 TIMES = ((0, 0, 0, 0), (12, 34, 56, 789), (23, 59, 59, 999))
 US_EXTRA = (0, 1, 999)  # microseconds added below the millisecond for the us-of-day stamp
+# the millisecond stamp may also be AHEAD of the microsecond counter (a stamp rounded to the nearest millisecond / rounded up)
+US_SWEEP = (0, 1, 999, -1, -500, 499, -300)
 
 
 def days(tier):
@@ -189,7 +191,7 @@ def sweep(case):
         hmsm = (msod // 3_600_000, msod // 60000 % 60, msod // 1000 % 60, msod % 1000)
         for level in ("1.5", "1.1"):
             n += 1
-            for f in one(level, y, doy, hmsm, US_EXTRA[i % 3]):
+            for f in one(level, y, doy, hmsm, US_SWEEP[i % 7] if msod > 0 else 0):
                 k = core.jkey(f["sig"])
                 if k not in seen:
                     seen.add(k)
@@ -341,13 +343,21 @@ def execute(case):
                     if k not in seen:
                         seen.add(k)
                         fails.append(f)
+            if doy in (1, 60, 366):  # level 1.1 lines whose millisecond stamp is ahead of the microsecond counter
+                for hmsm, extra in ((TIMES[1], -1), (TIMES[2], -500), ((0, 0, 0, 1), -700)):
+                    n += 1
+                    for f in one("1.1", y, doy, hmsm, extra):
+                        k = core.jkey(f["sig"])
+                        if k not in seen:
+                            seen.add(k)
+                            fails.append(f)
     return {"ok": not fails, "failures": fails, "outcome": "ok" if not fails else "mismatch", "nontrivial": True, "n": n}
 
 
 def run(res, tier, seed):
     res.rule = (
         "instants = (every day [thorough] | days 1,2,59,60,61,365,366 [quick]) of every year 2014..2049 x times 00:00:00.000,"
-        " 12:34:56.789, 23:59:59.999 (+0/1/999 us for the us-of-day stamp) x levels 1.5 and 1.1; each instant is written into all"
+        " 12:34:56.789, 23:59:59.999 (+0/1/999 us for the us-of-day stamp; on days 1, 60, 366 also -1 / -500 / -700 us: the millisecond stamp ahead of the microsecond counter) x levels 1.5 and 1.1; each instant is written into all"
         " time fields of one product at once; every time leaf is compared with the instant (and the whole tree with the"
         " reference model); plus 16 times of day at every order of magnitude of the ms/us counters (1 ms .. 86 399 998 ms) on 4 days; plus 12 instants whose compact text looks like a leap second / boundary at another alignment; plus 9 sequences of attitude days (over the end of the year, backwards, repeated) under common and leap reference years; plus each time-bearing field alone holding an instant of the neighbouring year; plus 5 instants on 4 days read back through the index cache; plus hours 0-3 of eight daylight-saving switch-over days under four local time zones; plus 12 decimal-second texts of the" " platform-position first point up to 86399.9999996 s on 4 dates (1 us tolerance) and on 96 dates written blank-padded ('2016   1  16'); plus images of 1025/1100/2049 lines (all per-line leaves compared) so that bulk code paths above the default"
         " 1024-line chunk are exercised. A case is a batch of 6 days; all distinct, all non-trivial."
